@@ -126,7 +126,8 @@ class _Worker:
         e = dict(os.environ)
         e.update({"PYTHONHASHSEED": "0", "PYTHONPATH": VERIF, "RINDPHI_ISLA_VERIF": "1"})
         e.update(env or {})
-        self.p = subprocess.Popen([PY, "-u", "-m", "harness.worker", module], cwd=VERIF, env=e,
+        opt = ["-O"] if e.get("VERIF_PY_O") == "1" else []      # assertions of the implementation switched off
+        self.p = subprocess.Popen([PY, "-u"] + opt + ["-m", "harness.worker", module], cwd=VERIF, env=e,
                                   stdin=subprocess.PIPE, stdout=subprocess.PIPE,
                                   stderr=subprocess.DEVNULL, text=True, bufsize=1)
 
